@@ -8,7 +8,8 @@
  *   fail <n> <errno>                the n-th (0-based) pthread_create of the run fails with errno
  *   tick <ns>                       every clock read advances virtual time by ns (spin-waits on the clock end)
  *   run choices <c...> | run sched <t...> | run seed <s> [spurious-permille]
- * actions: L<k> launch slot k | P<k> launch with cpu_id 0 | Q<k> launch with cpu_id 1000, its first pthread_create
+ * actions: L<k> launch slot k | J<k> aws_thread_join on slot k's handle (J<own slot> = self-join: EDEADLK;
+ *   after D<k>: EINVAL; never launched / already joined: no-op) | P<k> launch with cpu_id 0 | Q<k> launch with cpu_id 1000, its first pthread_create
  *   fails with EINVAL (library retries unpinned) | R<k> same, the retry fails too | a trailing 'n' on a launch
  *   (L3n, Q1n ...) gives the thread a name (options->name) | J<k> aws_thread_join | D<k> aws_thread_clean_up | A<i> register at-exit
  *   callback i | C print managed count | W aws_thread_join_all_managed | T<ns> set managed join timeout
@@ -73,6 +74,9 @@ static void s_reset(void) {
     for (int i = 0; i < MAXSLOT; ++i) {
         s_slots[i].id = i;
         s_slots[i].magic = SLOT_MAGIC;
+        /* every handle is an initialised aws_thread from the start: joining a never-launched one is a no-op */
+        aws_thread_init(&s_slots[i].handle, hc_allocator());
+        s_slots[i].handle_init = 1;
     }
     s_fail_n = -1;
     s_tick = 0;
@@ -99,6 +103,21 @@ static void s_atexit_cb(void *user_data) {
 }
 
 static void s_run_actions(struct slot *s);
+
+static const char *s_dstate(enum aws_thread_detach_state d) {
+    switch (d) {
+        case AWS_THREAD_NOT_CREATED:
+            return "NOT_CREATED";
+        case AWS_THREAD_JOINABLE:
+            return "JOINABLE";
+        case AWS_THREAD_JOIN_COMPLETED:
+            return "JOIN_COMPLETED";
+        case AWS_THREAD_MANAGED:
+            return "MANAGED";
+        default:
+            return "?";
+    }
+}
 
 /* once-callback: registers the configured at-exit callbacks on whichever thread runs it */
 static void s_once_cb(void *user_data) {
@@ -155,8 +174,11 @@ static void s_run_actions(struct slot *s) {
             }
             case 'J': {
                 struct slot *k = &s_slots[a->a];
-                int rc = k->handle_init ? aws_thread_join(&k->handle) : AWS_OP_SUCCESS;
-                printf("P join s%d by=s%d rc=%s\n", k->id, s->id, hc_err(rc));
+                enum aws_thread_detach_state pre = aws_thread_get_detach_state(&k->handle);
+                int rc = aws_thread_join(&k->handle);
+                const char *rcn = hc_err(rc);
+                enum aws_thread_detach_state post = aws_thread_get_detach_state(&k->handle);
+                printf("P join s%d by=s%d rc=%s pre=%s post=%s\n", k->id, s->id, rcn, s_dstate(pre), s_dstate(post));
                 break;
             }
             case 'D': {
